@@ -85,6 +85,7 @@ fn main() {
             "C12" => print_replay(&id, props::c12::replay(&name, &path)),
             "C13" => print_replay(&id, props::c13::replay(&name, &path)),
             "C14" => print_replay(&id, props::c14::replay(&name, &path)),
+            "C15" => print_replay(&id, props::c15::replay(&name, &path)),
             _ => {
                 eprintln!("unknown property {id}");
                 2
@@ -104,6 +105,7 @@ fn main() {
             "C12" => props::c12::check(&tier),
             "C13" => props::c13::check(&tier),
             "C14" => props::c14::check(&tier),
+            "C15" => props::c15::check(&tier),
             _ => {
                 eprintln!("unknown property {id}");
                 2
